@@ -90,8 +90,8 @@ inductive BMPre
   | cont (ddo : DDO) (bm : BM)               -- go on with the rest of the function
 deriving Repr
 
-def ensureIndexed (bm : BM) (bsq : List Node) : BM :=
-  if bm.dpbm.isNone then indexDpbm bsq else bm
+def ensureIndexed (bm : BM) (bsq : Unit → List Node) : BM :=
+  if bm.dpbm.isNone then indexDpbm (bsq ()) else bm
 
 /-- the value a marker operator gets: `bufr_mkval_for_descriptor(cbm)` -/
 def markerVal (cbm : Node) : Val × Nat × Nat :=
@@ -103,7 +103,9 @@ def markerVal (cbm : Node) : Val × Nat × Nat :=
 
 /-- the head of `bufr_apply_tables2node`: marker operators, class 33 elements, 2 36 000, and the
 count-down over the 0 31 031 of a bit-map -/
-def bmPre (bsq : List Node) (ddo : DDO) (bm : BM) (n : Node) : BMPre :=
+/- `bsq` is the sequence the node belongs to, as it is now; it is only looked at by the branches that
+index, evaluate or resolve (a thunk: the loops would otherwise rebuild the list at every node) -/
+def bmPre (bsq : Unit → List Node) (ddo : DDO) (bm : BM) (n : Node) : BMPre :=
   if bm.dpbm.isSome ∧ isMarkerDpbm n.desc then
     match bm.dpbm with
     | none => .cont ddo bm
@@ -117,7 +119,7 @@ def bmPre (bsq : List Node) (ddo : DDO) (bm : BM) (n : Node) : BMPre :=
           match d.index[k]? with
           | none => .ret bm n
           | some pos =>
-            match (if pos = 0 then none else bsq[pos - 1]?) with
+            match (if pos = 0 then none else (bsq ())[pos - 1]?) with
             | none => .ret bm n
             | some cbm =>
               let (v, w, b) := markerVal cbm
@@ -132,15 +134,15 @@ def bmPre (bsq : List Node) (ddo : DDO) (bm : BM) (n : Node) : BMPre :=
     | none => .cont ddo bm1
     | some d =>
       if bm1.remainDpi = 0 then
-        .cont ddo { bm1 with dpbm := some (initDpbm d bsq (startPos bsq)), remainDpi := -1 }
+        .cont ddo { bm1 with dpbm := some (initDpbm d (bsq ()) (startPos (bsq ()))), remainDpi := -1 }
       else if bm1.remainDpi > 0 ∧ bm1.remainDpi < d.index.length then
         .cont { ddo with flags := ddo.flags &&& (2^32 - 1 - DDO_BIT_MAP_FOLLOW) }
-              { bm1 with dpbm := some (initDpbm d bsq (startPos bsq)), remainDpi := -1 }
+              { bm1 with dpbm := some (initDpbm d (bsq ()) (startPos (bsq ()))), remainDpi := -1 }
       else .cont ddo bm1
   else .cont ddo bm
 
 /-- `bufr_apply_tables2node(ddo, bsq, tmplt, node, &errcode)`, the whole function -/
-def applyTables2nodeB (T : Tables) (edition : Nat) (bsq : List Node) (ddo : DDO) (bm : BM) (n : Node) :
+def applyTables2nodeB (T : Tables) (edition : Nat) (bsq : Unit → List Node) (ddo : DDO) (bm : BM) (n : Node) :
     DDO × BM × Node × Bool :=
   -- (`if (x == 31) cb->flags |= FLAG_CLASS31` comes before the head; no marker operator has X = 31)
   match bmPre bsq ddo bm n with
@@ -155,7 +157,7 @@ def applyTablesAllB (T : Tables) (edition : Nat) :
     DDO → BM → List Node → List Node → List Node × DDO × BM × Bool
   | ddo, bm, _, [] => ([], ddo, bm, false)
   | ddo, bm, doneRev, n :: ns =>
-    let (ddo1, bm1, n1, e1) := applyTables2nodeB T edition (doneRev.reverse ++ n :: ns) ddo bm n
+    let (ddo1, bm1, n1, e1) := applyTables2nodeB T edition (fun _ => doneRev.reverse ++ n :: ns) ddo bm n
     let (ns', ddo2, bm2, e2) := applyTablesAllB T edition ddo1 bm1 (n1 :: doneRev) ns
     (n1 :: ns', ddo2, bm2, e1 || e2)
 
@@ -165,7 +167,7 @@ def decodeSubsetLoopB (T : Tables) (edition : Nat) (s4max : Nat) :
   | 0, _, _, _, _, _ => .error .fuel
   | _, _, bm, st, done, [] => .ok (st, done.reverse, .complete, bm)
   | f+1, ddo, bm, st, done, n :: rest =>
-    let (ddo1, bm1, n1, err) := applyTables2nodeB T edition (done.reverse ++ n :: rest) ddo bm n
+    let (ddo1, bm1, n1, err) := applyTables2nodeB T edition (fun _ => done.reverse ++ n :: rest) ddo bm n
     let st1 := { st with invalid := st.invalid || err }
     if n.flags.skipped then decodeSubsetLoopB T edition s4max f ddo1 bm1 st1 (n1 :: done) rest
     else
@@ -225,7 +227,7 @@ def decodeUncompressedB (T : Tables) (edition : Nat) (enforce : Enforce) (fuel :
 copy's sequence being what it has walked (reversed) followed by what is left -/
 def stepFB (T : Tables) (edition : Nat) (p : DDO × BM) (q : List Node × List Node) : DDO × BM × Node × Bool :=
   match q.2 with
-  | n :: _ => applyTables2nodeB T edition (q.1.reverse ++ q.2) p.1 p.2 n
+  | n :: _ => applyTables2nodeB T edition (fun _ => q.1.reverse ++ q.2) p.1 p.2 n
   | [] => (p.1, p.2, ({ desc := 0 } : Node), false)
 
 structure CompStB where
